@@ -13,6 +13,8 @@ import fcntl
 import operator
 import os
 import random
+import time
+from fractions import Fraction as F
 
 import vlib
 import gen_c01
@@ -150,6 +152,89 @@ def list_cases(rng, n):
     return getc, setc
 
 
+# ------------------------------------------------------------------ independent oracle (property text, exact fractions)
+def _fr(x):
+    return F(x) if isinstance(x, int) else F(float(x))
+
+
+def avg_oracle(ports, uops, option, r):
+    """uniform split: every micro-op's cycles are spread over the ports it names (total), nothing lands on a port no
+    micro-op of the chosen alternative names (support).  Only judged when the implementation returned a vector."""
+    if r[0] != "ok":
+        return []
+    us = uops.get(option) if isinstance(uops, dict) else uops
+    if us is None:
+        return []
+    bad = []
+    v = [F(x) for x in r[1]]
+    named = set(p for _, ps in us for p in ps)
+    total = sum(_fr(c) for c, ps in us if len(ps))
+    scale = max(F(1), sum(abs(_fr(c)) for c, ps in us))
+    if len(v) != len(ports):
+        bad.append(("length", "vector of length %d for %d ports" % (len(v), len(ports))))
+    if abs(sum(v) - total) > scale / 10 ** 9:
+        bad.append(("total", "pressure adds up to %s, micro-op cycles to %s" % (float(sum(v)), float(total))))
+    for p, x in zip(ports, v):
+        if p not in named and x != 0:
+            bad.append(("support", "port %s carries %s but no micro-op names it" % (p, float(x))))
+            break
+    return bad
+
+
+def tps_oracle(kern, r):
+    """totals = column sums over the lines whose throughput is not 0, to the rounding of two decimals"""
+    if r[0] != "ok":
+        return [("crash", "get_throughput_sum raises %s" % r[2])]
+    rows = [row for tp, row in kern if tp is None or tp != 0.0]
+    width = min((len(x) for x in rows), default=0)
+    if len(r[1]) != width:
+        return [("colsum", "%d totals for %d columns" % (len(r[1]), width))]
+    for j in range(width):
+        col = sum(F(x[j]) for x in rows)
+        tol = F(5, 1000) + sum(abs(F(x[j])) for x in rows) / 10 ** 12 + F(1, 10 ** 9)
+        if abs(F(r[1][j]) - col) > tol:
+            return [("colsum", "column %d total %s but the counted lines add up to %s" % (j, r[1][j], float(col)))]
+    return []
+
+
+def judge(ctx, avg, tps):
+    for ports, uops, option, r in avg:
+        for kind, text in avg_oracle(ports, uops, option, r):
+            ctx.violation("uniform:" + kind, "average_port_pressure(%r, option=%r) on ports %r: %s" % (uops, option, ports, text),
+                          {"c01gen": "avg", "ports": ports, "uops": uops, "option": option})
+    for kern, r in tps:
+        for kind, text in tps_oracle(kern, r):
+            ctx.violation("uniform:" + kind, "get_throughput_sum on (throughput, pressure) lines %r: %s" % (kern, text),
+                          {"c01gen": "tps", "kernel": kern})
+
+
+def replay(ctx, obj):
+    """re-run a failing input of this stage on the implementation"""
+    from osaca.semantics import MachineModel, ArchSemantics
+    from osaca.parser.instruction_form import InstructionForm
+    r = obj["replay"]
+    if r["c01gen"] == "avg":
+        uops = r["uops"]
+        if isinstance(uops, dict):
+            uops = {int(k): v for k, v in uops.items()}
+        mm = MachineModel.__new__(MachineModel)
+        mm._data = {"ports": list(r["ports"])}
+        out = call(lambda: mm.average_port_pressure(uops, r["option"]))
+        ctx.log("replay: average_port_pressure returned %s" % (out[:2],))
+        judge(ctx, [(r["ports"], uops, r["option"], out)], [])
+    else:
+        forms = []
+        for ln, (tp, row) in enumerate(r["kernel"]):
+            f = InstructionForm(mnemonic="i", line_number=ln + 1)
+            f.port_pressure = list(row)
+            f.throughput = tp
+            forms.append(f)
+        out = call(lambda: ArchSemantics.get_throughput_sum(forms))
+        ctx.log("replay: get_throughput_sum returned %s" % (out[:2],))
+        judge(ctx, [], [(r["kernel"], out)])
+    ctx.count()
+
+
 # ------------------------------------------------------------------ rendering
 def coq_uops(us):
     if isinstance(us, dict):
@@ -218,6 +303,7 @@ def cross_check(ctx):
     for _ in range(nsh):
         g, s = list_cases(rng, per)
         groups.append((avg_cases(rng, per), tps_cases(rng, per), g, s))
+        judge(ctx, groups[-1][0], groups[-1][1])          # search: the property text on the implementation's own outputs
     shards = [("c01gen_%02d" % i, shard(*g)) for i, g in enumerate(groups)]
     res = ctx.coq_eval_many(shards, timeout=600)
     total = 0
@@ -252,6 +338,7 @@ def cross_check(ctx):
 
 
 def run(ctx):
+    t0 = time.time()
     ctx.trusted += ["translator tools/gen_c01.py + tools/py2coq.py (fail-closed subset; its prelude py_for / py_catch / py_index / "
                     "py_zip_star / py_dict_get in the header of Gen/PressureGen.v is proved equal to the hand model's list "
                     "operations in PropsGen/C01gen.v and cross-checked against CPython on random inputs every run)",
@@ -277,3 +364,4 @@ def run(ctx):
         else:
             ctx.obligation("theorems of %s (regenerated definitions = hand model)" % PROPS, "theorem", False,
                            "generated definitions unavailable")
+    ctx.log("translation tie (regenerate, compile, re-prove, cross-check): %.1fs" % (time.time() - t0))
